@@ -21,9 +21,11 @@ Suspected defects that cannot be shown against a real backend here (no MySQL/Pos
 over the REAL emitted text, counted under `suspected:*`, and never reported as violations.
 """
 import itertools, json, sqlite3, warnings
+from datetime import date, datetime, time, timedelta
+from decimal import Decimal
 import ponyutil
 ponyutil.add_stubs()
-from pony.orm import Database, Required, Optional, PrimaryKey, db_session, select
+from pony.orm import Database, Required, Optional, PrimaryKey, Set, db_session, select
 from pony.orm.sqlbuilding import Value, SQLBuilder, Param
 from pony.orm.dbapiprovider import DBAPIProvider
 from pony.orm.dbproviders.sqlite import SQLiteValue, SQLiteBuilder
@@ -649,6 +651,262 @@ def statements(ctx, strings):
     con.close()
 
 
+# ---------------------------------------------------------------------------------------------------------------------
+class RecordingBuilder(object):
+    """stands for `builder` in the translated SQLBuilder methods: records the sub-ASTs it is asked to render"""
+    def __init__(self, paramstyle): self.paramstyle = paramstyle
+    def __call__(self, ast): return {'call': 'builder', 'args': [ast]}
+
+
+def jnorm(x):
+    if isinstance(x, (tuple, list)): return [jnorm(i) for i in x]
+    if isinstance(x, dict): return {k: jnorm(v) for k, v in x.items()}
+    return x
+
+
+def builder_text_tie(ctx):
+    """Gen.sqlMod / sqlLike / sqlNotLike / sqlReplaceCall (regenerated from SQLBuilder on every run) vs the real methods"""
+    if not ctx.driver.ok: return
+    asts = [['VALUE', 'x'], ['VALUE', "a'%"], ['COLUMN', 'e', 'name'], ['PARAM', 1], ['VALUE', 7]]
+    escs = [None, ['VALUE', '!'], [], ['VALUE', '']]
+    reqs = []; reals = []; inputs = []
+    for style in STYLES + ['other']:
+        rb = RecordingBuilder(style)
+        for a, b in itertools.product(asts, repeat=2):
+            reqs.append({'op': 'gen_build', 'fn': 'mod', 'args': [a, b, style]}); reals.append(jnorm(SQLBuilder.MOD(rb, a, b))); inputs.append(['mod', style, a, b])
+    rb = RecordingBuilder('qmark')
+    for a, b in itertools.product(asts, repeat=2):
+        for e in escs:
+            reqs.append({'op': 'gen_build', 'fn': 'like', 'args': [a, b, e]}); reals.append(jnorm(SQLBuilder.LIKE(rb, a, b, e))); inputs.append(['like', a, b, e])
+            reqs.append({'op': 'gen_build', 'fn': 'not_like', 'args': [a, b, e]}); reals.append(jnorm(SQLBuilder.NOT_LIKE(rb, a, b, e))); inputs.append(['not_like', a, b, e])
+        for c in asts[:3]:
+            reqs.append({'op': 'gen_build', 'fn': 'replace', 'args': [a, b, c]}); reals.append(jnorm(SQLBuilder.REPLACE(rb, a, b, c))); inputs.append(['replace', a, b, c])
+    for inp, real, out in zip(inputs, reals, ctx.driver('C06', reqs)):
+        ctx.case(['gen-build'] + inp, kind='translator-tie:' + inp[0])
+        if out != {'ok': real}:
+            ctx.divergence('generated SQLBuilder method and the real method disagree', inp, model=out, impl=real)
+    # the overriding builders keep these methods (Oracle replaces MOD by the MOD() function: no % at all)
+    for name, B in builder_classes().items():
+        for m in ('LIKE', 'NOT_LIKE', 'REPLACE') + (() if name == 'oracle' else ('MOD',)):
+            ctx.case(['builder-inherits', name, m], kind='builder-inherits')
+            if getattr(B, m) is not getattr(SQLBuilder, m):
+                ctx.divergence('a dialect builder overrides a method the model takes from SQLBuilder', [name, m], model='SQLBuilder.' + m, impl=repr(getattr(B, m)))
+
+
+def skel_of(parts):
+    """expected skeleton: merge adjacent raw strings; {'q': c} marks one quoted token"""
+    out = []
+    for p in parts:
+        if isinstance(p, str):
+            if not p: continue
+            if out and isinstance(out[-1], str): out[-1] += p
+            else: out.append(p)
+        else: out.append(p)
+    return out
+
+
+def structure(ctx, strings):
+    """statements with adversarial values AND adversarial aliases, five styles x five builders: executed on real SQLite
+    (values and column names must come back) and their skeleton (Lean lexer model on the text the server receives) must be
+    the one determined by the AST alone, whatever the values and names are"""
+    rng = ctx.rng; con = sqlite_con(); builders = builder_classes()
+    pool = [s for s in strings if len(s) <= 8 and '\x00' not in s]
+    reqs = []; meta = []
+    for rd in range(ctx.scale(50, 1200)):
+        keys = rng.sample(range(1, 30), rng.choice([1, 2, 3]))
+        vals = {k: rng.choice([rng.choice(pool), rng.choice(SPECIAL), rng.randrange(0, 1000)]) for k in keys}
+        n = rng.choice([1, 2, 3, 5])
+        aliases = rng.sample(pool, n) if len(set(pool)) >= n else pool[:n]
+        items = []; expected = []; kinds = []
+        for j in range(n):
+            r = rng.random()
+            if r < 0.5:
+                k = rng.choice(keys); items.append(['PARAM', (k, None, None)]); expected.append(vals[k]); kinds.append(('param', k))
+            elif r < 0.85:
+                v = rng.choice([rng.choice(pool), rng.choice(SPECIAL)]); items.append(['VALUE', v]); expected.append(v); kinds.append(('lit', v))
+            else:
+                v = rng.randrange(0, 1000); items.append(['VALUE', v]); expected.append(v); kinds.append(('num', v))
+        ast = ['SELECT', ['ALL'] + [['AS', it, al] for it, al in zip(items, aliases)]]
+        for style in STYLES:
+            bname = rng.choice(list(builders)); q = '`' if bname == 'mysql' else '"'
+            b = builders[bname](FakeProvider(style, q), ast)
+            args = b.adapter(vals)
+            if style in PERCENT and any('%' in al for al in aliases):
+                # outside the guard of C06_ident_expand_partial: quote_name does not double `%`, the DB-API expansion mangles or rejects
+                # the statement.  No format-style backend exists here: suspected, unconfirmable offline - counted, not reported.
+                try: ok = dbapi_expand(style, b.sql, tuple(sql_lit(a) for a in args) if style == 'format' else {k: sql_lit(v) for k, v in args.items()}) is not None
+                except Exception: ok = False
+                ctx.count('suspected:ident-percent:statement-%s' % ('expands' if ok else 'rejected-by-expansion'))
+                ctx.extra.setdefault('suspected_unconfirmable_offline', {}).setdefault('ident-percent:statement', {'style': style, 'sql': b.sql, 'aliases': aliases})
+                continue
+            with warnings.catch_warnings():
+                warnings.simplefilter('ignore', DeprecationWarning)
+                try:
+                    if style in ('qmark', 'named'): sent = b.sql; cur = con.execute(sent, args)
+                    elif style == 'numeric':
+                        sent = ''.join((':n%d' % x.id) if isinstance(x, Param) else str(x) for x in b.result).rstrip('\n')
+                        cur = con.execute(sent, {'n%d' % (i + 1): a for i, a in enumerate(args)})
+                    elif style == 'format': sent = b.sql % tuple(sql_lit(a) for a in args); cur = con.execute(sent)
+                    else: sent = b.sql % {k: sql_lit(v) for k, v in args.items()}; cur = con.execute(sent)
+                    got = ([d[0] for d in cur.description], [list(r) for r in cur.fetchall()])
+                except Exception as e:
+                    got = 'raised %s: %s' % (type(e).__name__, short(str(e), 80)); sent = None
+            ctx.case(['structure', style, bname, aliases, [repr(e)[:12] for e in expected]], kind='structure:' + style)
+            if got != (aliases, [expected]):
+                ctx.violation('a statement with adversarial values and aliases does not return the supplied values under the supplied column names (paramstyle %s)' % style,
+                              {'style': style, 'builder': bname, 'ast': repr(ast)[:600], 'sql': b.sql, 'args': repr(args)[:300]}, observed=repr(got)[:300], expected=repr((aliases, [expected]))[:300],
+                              key='structure:%s:%s' % (style, json.dumps([k[0] for k in kinds])))
+            if sent is not None:
+                # what the skeleton must be, from the AST alone
+                ids = {}
+                for x in b.result:
+                    if isinstance(x, Param): ids.setdefault(x.paramkey[0], x.id)
+                parts = ['SELECT ']
+                for j, (kind, al) in enumerate(zip(kinds, aliases)):
+                    if j: parts.append(', ')
+                    if kind[0] == 'lit': parts.append({'q': "'"})
+                    elif kind[0] == 'num': parts.append(str(kind[1]))
+                    else:
+                        v = vals[kind[1]]
+                        if style in PERCENT: parts.append({'q': "'"} if isinstance(v, str) else str(v))
+                        elif style == 'qmark': parts.append('?')
+                        elif style == 'named': parts.append(':p%d' % ids[kind[1]])
+                        else: parts.append(':n%d' % ids[kind[1]])
+                    parts.append(' AS '); parts.append({'q': q})
+                reqs.append({'op': 'skeleton', 'text': sent}); meta.append((style, bname, sent, skel_of(parts)))
+    if ctx.driver.ok:
+        for (style, bname, sent, exp), out in zip(meta, ctx.driver('C06', reqs)):
+            if out != exp:
+                ctx.divergence('the skeleton of a real statement is not the one its AST determines (a value or name changed the structure, or the lexer model is off)',
+                               [style, bname, sent], model=out, impl=exp)
+        # the automaton's terminated / unterminated decision against SQLite's own tokenizer
+        texts = [''.join(rng.choice(['a', ' ', "'", '"', '`', "'", ',']) for _ in range(rng.choice([1, 2, 3, 4, 6, 9]))) for _ in range(ctx.scale(400, 8000))]
+        for t, out in zip(texts, ctx.driver('C06', [{'op': 'skeleton', 'text': t} for t in texts])):
+            ctx.case(['skeleton-complete', t], kind='skeleton-vs-sqlite-complete')
+            real = sqlite3.complete_statement(t + ';')
+            ctx.count('skeleton:%s' % ('terminated' if out is not None else 'unterminated'))
+            if (out is not None) != real:
+                ctx.divergence('skeleton automaton and SQLite tokenizer disagree on whether every quoted token is terminated', [t], model=out, impl=real)
+    con.close()
+
+
+def const_src(v):
+    return repr(v).replace('datetime.', '')
+
+
+def typed_constants(ctx):
+    """numbers, dates, times, intervals, bytes, booleans written as constants in a query (inline literals rendered by Value.__str__ /
+    SQLiteValue.__str__) and supplied as parameters, on real SQLite, compared with Python"""
+    rng = ctx.rng
+    COLS = {
+        'i': [0, 1, -1, -5, 7, 2 ** 31, -2 ** 63, 2 ** 63 - 1, 10 ** 15],
+        'f': [0.0, 1.5, -2.25, 1e21, 1e-7, 123456789.125, 3.0e-5],
+        'd': [Decimal('0'), Decimal('-1.50'), Decimal('1.000001'), Decimal('12345678901234.123456'), Decimal('100')],
+        'dt': [date(2020, 2, 29), date(1999, 12, 31), date(9999, 12, 31), date(1, 1, 1), date(2020, 1, 2)],
+        'ts': [datetime(2020, 1, 2, 3, 4, 5, 6), datetime(2020, 1, 2, 3, 4, 5), datetime(1999, 12, 31, 23, 59, 59, 999999), datetime(2020, 1, 2)],
+        'tm': [time(3, 4, 5, 6), time(0, 0), time(23, 59, 59, 999999), time(3, 4, 5)],
+        'td': [timedelta(1, 2, 3), timedelta(0), timedelta(days=2, microseconds=1), timedelta(days=100, microseconds=1), timedelta(hours=5), timedelta(days=390, seconds=276, microseconds=729633)],
+        'b': [True, False],
+        'by': [b'\x00', b"'", b'\xff\x00abc', b'abc'],
+    }
+    db = Database()
+    class V(db.Entity):
+        i = Required(int, size=64)
+        f = Required(float)
+        d = Required(Decimal, 20, 6)
+        dt = Required(date)
+        ts = Required(datetime, 6)
+        tm = Required(time, 6)
+        td = Required(timedelta, 6)
+        b = Required(bool)
+        by = Required(bytes)
+    db.bind('sqlite', ':memory:')
+    db.generate_mapping(create_tables=True)
+    nrows = 9
+    rows = [{c: vs[j % len(vs)] for c, vs in COLS.items()} for j in range(nrows)]
+    with db_session:
+        for r in rows: V(**r)
+    kindname = {'i': 'int', 'f': 'float', 'd': 'Decimal', 'dt': 'date', 'ts': 'datetime', 'tm': 'time', 'td': 'timedelta', 'b': 'bool', 'by': 'bytes'}
+    with db_session:
+        ids = [e.id for e in V.select().order_by(V.id)]
+        for c, vs in COLS.items():
+            for v in vs:
+                for op, pyop in (('==', lambda a, b: a == b), ('<', lambda a, b: a < b)):
+                    if op == '<' and c in ('b', 'by'): continue
+                    exp = [i for i, r in zip(ids, rows) if pyop(r[c], v)]
+                    for path in ('const', 'param'):
+                        try:
+                            if path == 'const': q = select('e for e in V if e.%s %s %s' % (c, op, const_src(v)))
+                            elif op == '==': q = select(e for e in V if getattr(e, c) == v)
+                            else: q = select(e for e in V if getattr(e, c) < v)
+                            sql = q.get_sql()
+                            got = sorted(e.id for e in q)
+                            inline = '?' not in sql.split('WHERE')[-1]
+                        except Exception as ex:
+                            got = 'raised %s' % type(ex).__name__; inline = None
+                        ctx.case(['typed-const', c, op, path, repr(v)], kind='typed-const:%s:%s' % (kindname[c], path))
+                        if inline: ctx.count('typed-const:inline-literal:' + kindname[c])
+                        if got != exp:
+                            ctx.violation('e.%s %s <%s constant> with the value written as a %s %s on real SQLite' % (c, op, kindname[c], 'constant in the query' if path == 'const' else 'parameter',
+                                              ('raises ' + got[7:]) if isinstance(got, str) else 'returns different rows than Python'),
+                                          {'attr': c, 'type': kindname[c], 'op': op, 'path': path, 'value': repr(v), 'query': 'select(e for e in V if e.%s %s %s)' % (c, op, const_src(v))},
+                                          observed=got, expected=exp,
+                                          key='typed-const:%s:%s:%s' % (kindname[c], path, got[7:] if isinstance(got, str) else 'rows'))
+    db.disconnect()
+
+
+def param_eval_queries(ctx, strings):
+    """Param.eval: parameters that are items of a tuple (paramkey (var, i, None)) and components of an entity's composite primary key
+    (paramkey (var, None, j) / (var, i, j)) must be bound to exactly that item / component - real queries on real SQLite vs Python"""
+    rng = ctx.rng
+    pool = [s for s in strings if 0 < len(s) <= 6 and s.strip() == s][:80]
+    db = Database()
+    class C(db.Entity):
+        a = Required(str, autostrip=False)
+        b = Required(str, autostrip=False)
+        n = Required(int)
+        PrimaryKey(a, b, n)
+        fs = Set('F')
+    class F(db.Entity):
+        name = Optional(str, autostrip=False)
+        c = Required(C)
+    db.bind('sqlite', ':memory:')
+    db.generate_mapping(create_tables=True)
+    with db_session:
+        keys = []
+        for i in range(12):
+            k = (rng.choice(pool), rng.choice(pool), rng.randrange(3))
+            if k in keys: continue
+            keys.append(k); c = C(a=k[0], b=k[1], n=k[2])
+            for j in range(2): F(name=rng.choice(pool), c=c)
+        # components swapped: same strings in the other order must not match
+        k = keys[0]
+        if (k[1], k[0], k[2]) not in keys and k[0] != k[1]:
+            keys.append((k[1], k[0], k[2])); F(name='swapped', c=C(a=k[1], b=k[0], n=k[2]))
+    with db_session:
+        fdata = [(f.id, f.name, (f.c.a, f.c.b, f.c.n)) for f in F.select()]
+        def check(what, got, exp, inp):
+            ctx.case(['param-eval', what] + inp, kind='param-eval:' + what)
+            if got != exp:
+                ctx.violation('a query parameter that is %s is not bound to that value (real SQLite vs Python)' % what, {'case': what, 'input': inp},
+                              observed=got, expected=exp, key='param-eval:%s' % what)
+        for _ in range(ctx.scale(25, 400)):
+            t = tuple(rng.choice(pool) for _ in range(rng.choice([1, 2, 3, 5])))
+            try: got = sorted(f.id for f in select(f for f in F if f.name in t))
+            except Exception as e: got = 'raised %s' % type(e).__name__
+            check('an item of a tuple', got, sorted(i for i, nm, k in fdata if nm in t), [list(t)])
+        for k in keys:
+            cobj = C[k]
+            try: got = sorted(f.id for f in select(f for f in F if f.c == cobj))
+            except Exception as e: got = 'raised %s' % type(e).__name__
+            check('a component of a composite primary key', got, sorted(i for i, nm, kk in fdata if kk == k), [list(k)])
+            objs = (cobj, C[keys[0]])
+            try: got = sorted(f.id for f in select(f for f in F if f.c in objs))
+            except Exception as e: got = 'raised %s' % type(e).__name__
+            check('a key component of an entity inside a tuple', got, sorted(i for i, nm, kk in fdata if kk in (k, keys[0])), [list(k)])
+    db.disconnect()
+
+
 def canon_occ(occ):
     m = {}
     return [m.setdefault(k, len(m)) for k in occ]
@@ -657,15 +915,15 @@ def canon_occ(occ):
 def run(ctx):
     if not ctx.driver.ok:
         ctx.note('driver unavailable: model ties skipped, property oracle still runs')
+    import time as _t
     strings = adversarial_strings(ctx)
     ctx.extra['adversarial_strings'] = len(strings)
-    literals(ctx, strings)
-    mysql_witness(ctx)
-    other_values(ctx)
-    identifiers(ctx, strings)
-    like_model_vs_sqlite(ctx)
-    like_queries(ctx, strings)
-    statements(ctx, strings)
+    timings = ctx.extra.setdefault('section_seconds', {})
+    for name, f in [('literals', lambda: literals(ctx, strings)), ('mysql_witness', lambda: mysql_witness(ctx)), ('other_values', lambda: other_values(ctx)),
+                    ('identifiers', lambda: identifiers(ctx, strings)), ('like_model_vs_sqlite', lambda: like_model_vs_sqlite(ctx)),
+                    ('like_queries', lambda: like_queries(ctx, strings)), ('statements', lambda: statements(ctx, strings)),
+                    ('builder_text_tie', lambda: builder_text_tie(ctx)), ('structure', lambda: structure(ctx, strings)), ('typed_constants', lambda: typed_constants(ctx)), ('param_eval_queries', lambda: param_eval_queries(ctx, strings))]:
+        t0 = _t.time(); f(); timings[name] = round(_t.time() - t0, 2)
 
 
 def replay(ctx, data):
